@@ -47,8 +47,11 @@ func (d *Delete) Unmarshal(b []byte) error {
 		}
 		spiSize := b[1]
 		numberOfSPI := binary.BigEndian.Uint16(b[2:4])
-		if len(b) < (4 + (int(spiSize) * int(numberOfSPI))) {
+		if len(b) != (4 + (int(spiSize) * int(numberOfSPI))) {
 			return errors.Errorf("Delete: No Sufficient bytes to get SPIs according to the length specified in header")
+		}
+		if numberOfSPI > 0 && spiSize != 4 {
+			return errors.Errorf("Delete: Unsupported SPI size %d", spiSize)
 		}
 
 		d.ProtocolID = b[0]
